@@ -4,7 +4,8 @@
 //! on the chain, unknown, only on the other branch, forged; the FETCH / REFRESH timers; honest
 //! answers (v0 or v1) and single-fault mutations of `SendBlocksProof`, `SendTransactionsProof`
 //! and `SendBlock`; answers nobody asked for / from another peer; peer time-outs, disconnects,
-//! reconnects; a fork switch.  Every RPC call, timer tick, disconnect and every delivery of the
+//! reconnects; a fork switch; one multi-step attack over the filter pipeline (a forged block under
+//! a matched hash the peers honestly report missing).  Every RPC call, timer tick, disconnect and every delivery of the
 //! three messages is also run through the `Proofs` Lean layer: the abstraction of the client's
 //! state goes in, the observable result (status / ban code / sent requests / indexed blocks) and
 //! the abstraction of the state afterwards are compared.
@@ -248,9 +249,16 @@ pub(crate) enum Attack {
     BlkExtensionAltered,
     BlkUnasked,
     BlkUnaskedForged,
+    /// multi-step: a `BlockFilters` answer with the hash of one matching block replaced by the
+    /// hash of a forged, self-consistent block (the filters stay honest), the honest
+    /// `SendBlocksProof` answer (the forged hash is missing), then `SendBlock` with the forged block
+    BlkForgedMatchedMissing,
 }
 
-pub(crate) const ATTACKS: [Attack; 34] = [
+/// the kinds `gen_step` drew from before kinds were appended (the draw of an old seed keeps its meaning)
+const OLD_ATTACKS: u64 = 34;
+
+pub(crate) const ATTACKS: [Attack; 35] = [
     Attack::BpSwapHeader,
     Attack::BpSwapHeaderReproved,
     Attack::BpForgedHeader,
@@ -285,6 +293,7 @@ pub(crate) const ATTACKS: [Attack; 34] = [
     Attack::BlkExtensionAltered,
     Attack::BlkUnasked,
     Attack::BlkUnaskedForged,
+    Attack::BlkForgedMatchedMissing,
 ];
 
 impl Attack {
@@ -354,6 +363,19 @@ struct Ctx<'w> {
     rejected_with_request: bool,
     switched: bool,
     lost: bool,
+    /// the forged block of `BlkForgedMatchedMissing` whose hash a liar put among the matched ones
+    forged_match: Option<ForgedMatch>,
+}
+
+/// `BlkForgedMatchedMissing`: a block that is on no chain under a hash the filter pipeline took
+/// from a `BlockFilters` message
+struct ForgedMatch {
+    hash: Byte32,
+    block: packed::Block,
+    /// the transactions no chain block contains
+    txs: Vec<Byte32>,
+    /// how often the block was sent after a proof answer that reported its hash missing
+    sent: u32,
 }
 
 fn h256(h: &Byte32) -> H256 {
@@ -1659,6 +1681,33 @@ fn mutate_block(rng: &mut Rng, block: &BlockView, attack: Attack) -> Option<(pac
     Some((b.data(), format!("{:?}: block {}: {}", attack, block.number(), note)))
 }
 
+/// a self-consistent block that is on no chain: the body of `block` with a made-up transaction
+/// (paying to a registered script) added / instead of the last one, the header rebuilt so that it
+/// commits to this body; the hashes of its made-up transactions
+fn forged_block(rng: &mut Rng, block: &BlockView) -> (BlockView, Vec<Byte32>, &'static str) {
+    let salt = rng.next() % 1000;
+    let mut txs: Vec<TransactionView> = block.transactions();
+    let note = if txs.len() >= 2 && rng.chance(1, 3) {
+        txs.pop();
+        "its last transaction replaced by a made-up one"
+    } else {
+        "a made-up transaction added"
+    };
+    let made_up = forged_tx(salt);
+    let made_up_hash = made_up.hash();
+    txs.push(made_up);
+    let b = BlockView::new_advanced_builder()
+        .header(block.header())
+        .transactions(txs)
+        .uncles(block.uncles().into_iter().collect::<Vec<_>>())
+        .proposals(block.data().proposals().into_iter().collect::<Vec<_>>())
+        .extension(block.extension())
+        .build();
+    assert_ne!(b.hash(), block.hash(), "the forged block has its own hash");
+    assert!(body_ok(&b.data()), "the forged block is self-consistent");
+    (b, vec![made_up_hash], note)
+}
+
 #[derive(Clone, Debug)]
 enum Target {
     OnChain,
@@ -1731,6 +1780,65 @@ impl<'w> Ctx<'w> {
         }
     }
 
+    /// `BlkForgedMatchedMissing`, first step: the honest `BlockFilters` answer (possibly shorter
+    /// than the server's batch) with the hash of one matching block replaced by the hash of a
+    /// forged block; the filters stay as they are, so the batch passes the filter hash check.
+    /// `None`: fewer than two blocks of the answer touch a registered script (the proof request
+    /// has to hold a real block beside the forged hash)
+    fn forge_matched(&mut self, rng: &mut Rng, req: &packed::GetBlockFilters) -> Option<(Bytes, ForgedMatch, String)> {
+        let honest = server::get_block_filters_batch(self.chain(), req, self.sopts().filters_batch)?;
+        let start: u64 = honest.start_number().unpack();
+        let mut hashes: Vec<Byte32> = honest.block_hashes().into_iter().collect();
+        let mut filters: Vec<packed::Bytes> = honest.filters().into_iter().collect();
+        let on_serving = &self.branches[self.serving.min(self.branches.len() - 1)];
+        let touching: Vec<usize> = (0..hashes.len()).filter(|i| on_serving.facts.iter().any(|f| f.1 == start + *i as u64)).collect();
+        if touching.len() < 2 {
+            return None;
+        }
+        // a shorter batch now and then: the rest arrives as later records
+        if rng.chance(1, 2) {
+            let keep = touching[rng.range(1, touching.len() as u64 - 1) as usize] + 1;
+            hashes.truncate(keep);
+            filters.truncate(keep);
+        }
+        let touching: Vec<usize> = touching.into_iter().filter(|i| *i < hashes.len()).collect();
+        let j = *rng.pick(&touching);
+        let real = self.chain().block(start + j as u64).clone();
+        let (forged, made_up, how) = forged_block(rng, &real);
+        hashes[j] = forged.hash();
+        let n = hashes.len();
+        let content = packed::BlockFilters::new_builder().start_number(start.pack()).block_hashes(hashes.pack()).filters(filters.pack()).build();
+        let bytes = packed::BlockFilterMessage::new_builder().set(content).build().as_bytes();
+        let note = format!(
+            "{:?}: BlockFilters from {} ({} honest filters): the hash of the matching block {} replaced by the hash {} of a forged block ({}, header rebuilt)",
+            Attack::BlkForgedMatchedMissing,
+            start,
+            n,
+            start + j as u64,
+            short(&forged.hash()),
+            how
+        );
+        self.know_h(&forged.hash());
+        self.max_number = self.max_number.max(forged.number());
+        for t in forged.transactions() {
+            self.know_t(&t.hash());
+        }
+        for t in forged.transactions() {
+            if made_up.contains(&t.hash()) {
+                self.forged_t.insert(t.hash(), t.clone());
+            }
+        }
+        self.forged_h.insert(forged.hash(), forged.header());
+        Some((bytes, ForgedMatch { hash: forged.hash(), block: forged.data(), txs: made_up, sent: 0 }, note))
+    }
+
+    /// does a stored record of matched blocks / the in-memory map hold this hash?
+    fn in_matched(&self, h: &Byte32) -> (bool, bool) {
+        let rec = records(&self.node).iter().any(|r| r.2.iter().any(|e| e.0 == *h));
+        let mem = self.node.i().peers.matched_blocks().read().unwrap().contains_key(&h256(h));
+        (rec, mem)
+    }
+
     /// serve one request of the client; `attack`: the mutation to apply to the first answer it fits
     fn serve(
         &mut self,
@@ -1745,6 +1853,44 @@ impl<'w> Ctx<'w> {
         let lc = SupportProtocols::LightClient.protocol_id();
         let sy = SupportProtocols::Sync.protocol_id();
         let v1 = self.v1;
+        let fl = SupportProtocols::Filter.protocol_id();
+        if *attack == Some(Attack::BlkForgedMatchedMissing) && protocol == fl {
+            let parsed = packed::BlockFilterMessageReader::from_compatible_slice(&data).ok().map(|m| m.to_enum());
+            if let Some(packed::BlockFilterMessageUnionReader::GetBlockFilters(r)) = parsed {
+                let req = r.to_entity();
+                if let Some((bytes, fm, note)) = self.forge_matched(rng, &req) {
+                    *attack = None;
+                    self.last_attack = format!("{:?}", Attack::BlkForgedMatchedMissing);
+                    rep.sample(&note);
+                    let hash = fm.hash.clone();
+                    self.forged_match = Some(fm);
+                    self.deliver(peer, fl, bytes, &note, sink, rep);
+                    let (rec, mem) = self.in_matched(&hash);
+                    rep.count_class(if mem {
+                        "forged-match:hash-in-matched-map"
+                    } else if rec {
+                        "forged-match:hash-in-later-record"
+                    } else {
+                        "forged-match:batch-not-taken"
+                    });
+                    return;
+                }
+            }
+        }
+        // `BlkForgedMatchedMissing`, last step: once a proof request that holds the forged hash
+        // got its honest answer (the hash is missing), the liar sends the forged block
+        let follow_up: Option<packed::Block> = match &self.forged_match {
+            Some(fm) if protocol == lc && fm.sent < 3 => {
+                let parsed = packed::LightClientMessageReader::from_compatible_slice(&data).ok().map(|m| m.to_enum());
+                match parsed {
+                    Some(packed::LightClientMessageUnionReader::GetBlocksProof(r)) if r.block_hashes().iter().any(|h| h.as_slice() == fm.hash.as_slice()) => {
+                        Some(fm.block.clone())
+                    }
+                    _ => None,
+                }
+            }
+            _ => None,
+        };
         if let Some(a) = *attack {
             if protocol == lc {
                 let parsed = packed::LightClientMessageReader::from_compatible_slice(&data).ok().map(|m| m.to_enum());
@@ -1795,7 +1941,7 @@ impl<'w> Ctx<'w> {
                     }
                     _ => {}
                 }
-            } else if protocol == sy && a.is_blk() && a != Attack::BlkUnasked && a != Attack::BlkUnaskedForged {
+            } else if protocol == sy && a.is_blk() && a != Attack::BlkUnasked && a != Attack::BlkUnaskedForged && a != Attack::BlkForgedMatchedMissing {
                 let parsed = packed::SyncMessageReader::from_compatible_slice(&data).ok().map(|m| m.to_enum());
                 if let Some(packed::SyncMessageUnionReader::GetBlocks(r)) = parsed {
                     let hashes: Vec<Byte32> = r.block_hashes().to_entity().into_iter().collect();
@@ -1832,8 +1978,29 @@ impl<'w> Ctx<'w> {
         }
         match server::handle(&self.chains[self.serving], &self.sopts(), protocol, &data) {
             Ok(replies) => {
+                let answered = !replies.is_empty();
                 for (rp, bytes) in replies {
                     self.deliver(peer, rp, bytes, "", sink, rep);
+                }
+                if let (Some(block), true) = (follow_up, answered) {
+                    let h = block.header().calc_header_hash();
+                    let proved = self.node.i().peers.matched_blocks().read().unwrap().get(&h256(&h)).map(|e| e.0);
+                    rep.count_class(match proved {
+                        Some(true) => "forged-match:block-sent:hash-marked-proved",
+                        Some(false) => "forged-match:block-sent:hash-unproved",
+                        None => "forged-match:block-sent:hash-not-in-map",
+                    });
+                    if let Some(fm) = self.forged_match.as_mut() {
+                        fm.sent += 1;
+                    }
+                    let label = format!(
+                        "{:?}: the forged block {} sent by peer {} after the honest proof answer that reports its hash missing",
+                        Attack::BlkForgedMatchedMissing,
+                        short(&h),
+                        peer
+                    );
+                    let m = sync_msg(packed::SendBlock::new_builder().block(block).build());
+                    self.deliver(peer, sy, m, &label, sink, rep);
                 }
             }
             Err(e) => {
@@ -1988,11 +2155,21 @@ impl<'w> Ctx<'w> {
         self.chains.iter().any(|c| c.number_of_hash(h).is_some())
     }
 
+    /// the attack a block hash / transaction hash that is on no chain stems from
+    fn cause_of(&self, block: Option<&Byte32>, tx: Option<&Byte32>) -> Option<String> {
+        let fm = self.forged_match.as_ref()?;
+        if block.map(|b| *b == fm.hash).unwrap_or(false) || tx.map(|t| fm.txs.contains(t)).unwrap_or(false) {
+            Some(format!("{:?}", Attack::BlkForgedMatchedMissing))
+        } else {
+            None
+        }
+    }
+
     fn check_header_answer(&mut self, what: &str, hash: &H256, out: &mut Hist) {
         let h: Byte32 = hash.pack();
         if !self.on_any_chain(&h) {
             out.violations.push((
-                format!("C02|header-not-on-chain|{}", self.cause()),
+                format!("C02|header-not-on-chain|{}", self.cause_of(Some(&h), None).unwrap_or_else(|| self.cause())),
                 format!("{} answers a header that is on no chain a peer ever proved", what),
                 format!("# header {}", short(&h)),
             ));
@@ -2027,7 +2204,7 @@ impl<'w> Ctx<'w> {
         let holder = (0..self.chains.len()).find(|i| self.chains[*i].number_of_hash(&bh).is_some());
         match holder {
             None => out.violations.push((
-                format!("C02|committed-in-unknown-block|{}", self.cause()),
+                format!("C02|committed-in-unknown-block|{}", self.cause_of(Some(&bh), Some(t)).unwrap_or_else(|| self.cause())),
                 format!("{} reports a transaction committed in a block that is on no chain", what),
                 format!("# tx {} block {}", short(t), short(&bh)),
             )),
@@ -2134,17 +2311,20 @@ impl<'w> Ctx<'w> {
         }
         let facts: BTreeSet<Fact> = facts.into_iter().filter(|f| !foreign(f)).collect();
         let created_elsewhere: BTreeSet<(u64, u64, Byte32, u32)> = elsewhere.iter().filter(|f| f.4).map(|f| (f.0, f.1, f.2.clone(), f.3)).collect();
-        if let Some(f) = facts.iter().find(|f| !truth.contains(*f)) {
+        // (the entries of a forged block under a matched hash first: they have their own signature)
+        let of_forged_match = |t: &Byte32| self.forged_match.as_ref().map(|fm| fm.txs.contains(t)).unwrap_or(false);
+        if let Some(f) = facts.iter().find(|f| !truth.contains(*f) && of_forged_match(&f.2)).or_else(|| facts.iter().find(|f| !truth.contains(*f))) {
             out.violations.push((
-                format!("C02|index-not-in-ground-truth|{}", self.index_cause()),
+                format!("C02|index-not-in-ground-truth|{}", self.cause_of(None, Some(&f.2)).unwrap_or_else(|| self.index_cause())),
                 "the index holds an entry that is not in the ground truth of the branch of the stored tip".into(),
                 format!("# after {}: script {} block {} tx {} cell {} output {}", step, f.0, f.1, short(&f.2), f.3, f.4),
             ));
         }
         let created: BTreeSet<(u64, u64, Byte32, u32)> = truth.iter().filter(|f| f.4).map(|f| (f.0, f.1, f.2.clone(), f.3)).collect();
-        if let Some(c) = cells.iter().find(|c| !created.contains(*c) && !created_elsewhere.contains(*c)) {
+        let wrong = |c: &&(u64, u64, Byte32, u32)| !created.contains(*c) && !created_elsewhere.contains(*c);
+        if let Some(c) = cells.iter().find(|c| wrong(c) && of_forged_match(&c.2)).or_else(|| cells.iter().find(|c| wrong(c))) {
             out.violations.push((
-                format!("C02|cell-not-in-ground-truth|{}", self.index_cause()),
+                format!("C02|cell-not-in-ground-truth|{}", self.cause_of(None, Some(&c.2)).unwrap_or_else(|| self.index_cause())),
                 "the index holds a cell that no block on the branch of the stored tip creates".into(),
                 format!("# after {}: script {} block {} tx {} index {}", step, c.0, c.1, short(&c.2), c.3),
             ));
@@ -2316,7 +2496,19 @@ fn gen_step(r: &mut Rng, prop: &str, switched: bool, can_switch: bool) -> Step {
         32..=45 => Step::FetchTx(target(r)),
         46..=55 => Step::Poll,
         56..=60 => Step::FetchTick,
-        61..=84 => Step::Attack(*r.pick(&ATTACKS)),
+        61..=84 => {
+            // one draw, as before the list grew: `v % OLD_ATTACKS` is the kind an old seed drew;
+            // one draw in sixteen goes to the kinds appended since (the residue class 6 holds
+            // none of the draws of the pinned corpus histories, so these keep their steps)
+            let v = r.next();
+            let w = v / OLD_ATTACKS;
+            let appended = ATTACKS.len() as u64 - OLD_ATTACKS;
+            if appended > 0 && w % 16 == 6 {
+                Step::Attack(ATTACKS[(OLD_ATTACKS + (w / 16) % appended) as usize])
+            } else {
+                Step::Attack(ATTACKS[(v % OLD_ATTACKS) as usize])
+            }
+        }
         85..=87 => Step::Timeout,
         88..=91 => Step::Disconnect,
         92..=95 => {
@@ -2338,7 +2530,11 @@ pub fn run(opts: &Options, prop: &str) -> Report {
         hash on the chain / unknown / only on the other branch / the stored tip / beyond the tip / forged, polls of every \
         asked hash (fetch_*, get_header, get_transaction), a lone FETCH tick, one of 34 single-fault mutations of \
         SendBlocksProof, SendTransactionsProof (v0 / v1) and SendBlock applied to the next fitting answer (or delivered \
-        unsolicited / by another peer), a time-out of every peer (clock beyond MESSAGE_TIMEOUT), a disconnect, the switch \
+        unsolicited / by another peer) or the multi-step attack BlkForgedMatchedMissing (the scripts registered again \
+        from block 0 when no two matching blocks are ahead of the filter sync; a BlockFilters answer with honest filters \
+        and the hash of one matching block replaced by the hash of a forged self-consistent block that creates a cell of \
+        a registered script; the honest SendBlocksProof answers that report this hash missing; SendBlock with the forged \
+        block after each of the first three), a time-out of every peer (clock beyond MESSAGE_TIMEOUT), a disconnect, the switch \
         of all peers to the fork, chain growth; then honest convergence with reconnects.  Every RPC call, FETCH / REFRESH \
         tick, connect, disconnect and every delivery of the three messages goes through the Proofs model: state \
         abstraction in, result (status, ban code, requests sent, peers timed out, blocks indexed) and state abstraction \
@@ -2441,6 +2637,7 @@ pub fn run(opts: &Options, prop: &str) -> Report {
             rejected_with_request: false,
             switched: false,
             lost: false,
+            forged_match: None,
         };
         for c in 0..ctx.chains.len() {
             for n in 0..=ctx.chains[c].tip_number() {
@@ -2556,6 +2753,27 @@ pub fn run(opts: &Options, prop: &str) -> Report {
                                 }
                             }
                         }
+                        Attack::BlkForgedMatchedMissing => {
+                            // the lie needs a `GetBlockFilters` request whose answer holds two
+                            // matching blocks: when the filter sync is beyond them (always, when it
+                            // was along them before), the user registers the scripts again from
+                            // block 0, which restarts it
+                            let min_filtered = ctx.node.i().storage.get_min_filtered_block_number();
+                            let ahead: BTreeSet<u64> = ctx.branches[ctx.serving].facts.iter().map(|f| f.1).filter(|n| *n > min_filtered).collect();
+                            if ahead.len() < 2 || r.chance(1, 2) {
+                                let statuses: Vec<ScriptStatus> = (1..=N_SCRIPTS)
+                                    .map(|id| ScriptStatus { script: script_of(id).into(), script_type: ScriptType::Lock, block_number: 0.into() })
+                                    .collect();
+                                let _ = ctx.guard(|n| n.filter_rpc().set_scripts(statuses, Some(SetScriptsCommand::All)).expect("set_scripts"));
+                                ctx.sync_shadow();
+                                rep.count_class("forged-match:scripts-registered-again");
+                            }
+                            pending = Some(*a);
+                            for _ in 0..2 {
+                                let b = r.range(4, 12) as usize;
+                                ctx.round(&mut r, b, &mut pending, &mut sink, &mut rep);
+                            }
+                        }
                         _ => {
                             // make sure a fitting request will be around, then lie on the next one
                             if a.is_bp() {
@@ -2655,6 +2873,18 @@ pub fn run(opts: &Options, prop: &str) -> Report {
             ctx.check_served("convergence", &mut out);
             ctx.check_index("convergence", &mut out);
             ctx.check_extensions(&mut out);
+            // what the client serves about a forged block under a matched hash
+            if let Some((fh, fts)) = ctx.forged_match.as_ref().map(|fm| (fm.hash.clone(), fm.txs.clone())) {
+                if let Some(Some(hv)) = ctx.get_header(&fh, &mut sink, &mut rep) {
+                    let hash = hv.hash.clone();
+                    ctx.check_header_answer("get_header", &hash, &mut out);
+                }
+                for t in fts {
+                    if let Some(tws) = ctx.get_tx(&t, &mut sink, &mut rep) {
+                        ctx.check_tx_answer("get_transaction", &t, &tws, &mut out);
+                    }
+                }
+            }
             let tip = ctx.stored_tip_number();
             for h in ctx.asked_h.clone() {
                 let last = ctx.statuses.get(&h).and_then(|v| v.last().cloned()).unwrap_or_default();
@@ -2720,6 +2950,9 @@ pub fn run(opts: &Options, prop: &str) -> Report {
         if debug {
             eprintln!("seed {} len {}: {} ; bans {:?} ; errors {:?} ; statuses {:?}", seed, len, desc, ctx.node.bans, ctx.node.server_errors.len(), ctx.statuses.values().collect::<Vec<_>>());
             eprintln!("   steps {:?}", steps_done);
+            if let Some(m) = &ctx.aborted {
+                eprintln!("   aborted: {}", m.chars().take(120).collect::<String>());
+            }
         }
         let mut seen = BTreeSet::new();
         for (sig, what, detail) in out.violations {
